@@ -27,6 +27,7 @@ S["C09"] = dict(title="Emitted packets decode to the request; invalid arguments 
     H("verifH_C09_strings", "L09.a stringCheck/topicCheck vs RFC 3629 DFA", T({"maxlen":3}), T({"maxlen":5}, time_sec=1500), ("accepted","rejected")),
     H("verifH_C09_stringlimits", "L09.a 65535/65536 limit (concrete content)"),
     H("verifH_C09_publish", "L09.b PUBLISH bytes vs reference, stale pool buffer", T({"maxtopic":2,"maxmsg":2}), T({"maxtopic":4,"maxmsg":3}, time_sec=1500), ("denied","encoded")),
+    H("verifH_C09_publishlength", "L09.b PUBLISH header for every payload length 0 .. 2^28+16 at once (length is a solver variable; length-only slice): remaining length exact and minimal at every width, over 268,435,455 refused with IsDeny", reach=("len1","len2","len3","len4","too-big","end")),
     H("verifH_C09_publishsizes", "L09.b remaining-length widths 127/128, 16383/16384"),
     H("verifH_C09_subscribe", "L09.c/e (UN)SUBSCRIBE via the request methods, denial leaves no trace", T({"maxfilter":2}), T({"maxfilter":3}, time_sec=1500), ("denied","encoded","canceled")),
     H("verifH_C09_nofilters", "L09.c no filters"),
@@ -36,7 +37,7 @@ S["C09"] = dict(title="Emitted packets decode to the request; invalid arguments 
   assumptions=["reference encoder/UTF-8 DFA in harness/zz_verif_ref.go is the oracle (written from OASIS MQTT 3.1.1 and RFC 3629)",
     "unicode/utf8.ValidString executed from SSA including its tables (package init run concretely)"],
   bounds={"quick":"strings <= 3 symbolic bytes (+ concrete 65535/65536), topic <= 2, payload <= 2 symbolic bytes + concrete sizes to 16384, <= 2 filters of <= 2 bytes, CONNECT fields <= 1-2 bytes","thorough":"strings <= 5 symbolic bytes, topic <= 4, payload <= 3, filters <= 3 bytes, CONNECT fields <= 2 bytes"},
-  outside=["strings longer than 5 symbolic bytes (validator is byte-local)","payload sizes near 2^21 and 2^28 (allocation bound of the engine)","more than 2 filters"])
+  outside=["strings longer than 5 symbolic bytes (validator is byte-local)","payload *content* for sizes above 16384 bytes (the all-lengths harness checks the header and the size arithmetic; the payload slice is passed through untouched by publishPacket)","SUBSCRIBE/UNSUBSCRIBE packets over 268,435,455 bytes (needs > 4096 filters)","more than 2 filters"])
 S["C15"] = dict(title="Stored records round-trip; single-byte damage always detected", technique=TECH+"; inductive hash-step lemma over the real hash/fnv code", harnesses=[
     H("verifH_C15_hashstep", "L15.a one step of real sum32a.Write is injective in state and in byte", reach=("state-injective","byte-injective")),
     H("verifH_C15_hashfold", "L15.a Write over k bytes is the k-fold step"),
